@@ -263,6 +263,8 @@ type genSpec struct {
 	dangling   string // "", "field", "component"
 	danglingIn string // "header" / "trailer" when the dangling reference sits there
 	nestedComp bool
+	// memberRepeated: some message declares a group member again as a top-level field after the group
+	memberRepeated bool
 }
 
 var genTypes = []string{"STRING", "INT", "CHAR", "PRICE", "QTY", "BOOLEAN", "UTCTIMESTAMP", "NUMINGROUP", "LENGTH", "DATA", "MULTIPLEVALUESTRING", "CURRENCY"}
@@ -361,6 +363,27 @@ func genSpecification(t *rapid.T) *genSpec {
 		used := map[string]bool{}
 		m := &specxml.MsgDecl{Name: fmt.Sprintf("Msg%d", i), MsgType: fmt.Sprintf("U%d", i), MsgCat: "app"}
 		m.Members = g.dedupe(g.genNodes(t, 0, -1, false, used))
+		if rapid.IntRange(0, 3).Draw(t, "member-repeated-at-top-level") == 0 {
+			// a field that is a member of one of the message's groups is also a field of the message
+			// itself, declared after the group (a per-entry Text and a Text for the whole message)
+			top := map[string]bool{}
+			for _, x := range m.Members {
+				top[x.Name] = true
+			}
+		search:
+			for _, x := range m.Members {
+				if x.Kind != "group" {
+					continue
+				}
+				for _, ch := range x.Children {
+					if ch.Kind == "field" && !top[ch.Name] {
+						m.Members = append(m.Members, &specxml.Node{Kind: "field", Name: ch.Name, Required: rapid.Bool().Draw(t, "rreq")})
+						g.memberRepeated = true
+						break search
+					}
+				}
+			}
+		}
 		g.messages = append(g.messages, m)
 	}
 	g.header = g.dedupe(g.genNodes(t, 0, -1, false, map[string]bool{}))
@@ -537,6 +560,9 @@ func c19Property(t *rapid.T) {
 		return
 	}
 	c.Class("generated:wellformed")
+	if g.memberRepeated {
+		c.Class("generated:group-member-also-a-top-level-field")
+	}
 	if derr != nil {
 		vk.Violation(t, c, "C19/generated/load-error", "%v on\n%s", derr, text)
 	}
